@@ -32,6 +32,8 @@ def run_stats(res, plan, stats):
         if k == 'R':
             ret = ev.get('ret', 0)
             mx = ev.get('max', 0)
+            if not isinstance(ret, int) or not isinstance(mx, int):
+                continue     # line cut short by the death of the process
             fl = ev.get('flags', [])
             if 'EINTR' in fl:
                 stats['fault:EINTR'] += 1
@@ -211,7 +213,7 @@ def evaluate(prop, ctx, case):
     b = ctx.build(sc)
     if not b.ok:
         return [], {}
-    r = common.run_one(b.exe, case.plan.text())
+    r = common.run_one(b.exe, case.plan.text(), timeout=120)
     m, viols = judge_run(sc, case.plan, r, prop.USE_MATCHER, prop.OVERREAD and sc.is_interactive_mode())
     viols.extend(prop.extra_judge(sc, case.plan, r, m))
     out = []
